@@ -12,6 +12,10 @@ Line protocol of component `thin` (model `JF.Model.Thinning`, binary64 reading).
      UNIT = <idlen> id.. <dim> pos.. <charge> <hasVel> [<dim> vel.. <tq> <tr>]
      ROOT = UNIT <weight> <nchildren> {UNIT <weight>}*
      -> err:<Exc> | none | ok <confirmed> <warned> G<bound handed to uniform|-> C <n> CALL* I <n> INSERT* S STATE
+  sendroot <kind 7|8> <useCharge> <L> <tiny> <etq> <etr> <nroots> ROOT* <nbranches> ROOT* <nb> bd.. <nq> q.. <d|r> <draw>
+     the root-unit-active handlers: first the in-state as stored (time-sliced) by `send_event_time`, then the branches
+     handed to `send_out_state` (not yet time-sliced); bd/q per (active leaf, target leaf) pair in loop order
+     -> same reply format as `send` (CALLs in call order: B P B P …)
 -/
 namespace JF.Driver
 open JF JF.Thin
@@ -95,6 +99,24 @@ private def psend : P String := do
   else
     return showRes (sendComposite Ops.float c kind useCharge et st target guardOk b bds qs pairs dr nextId)
 
+private def psendroot : P String := do
+  let kind ← pn
+  let useCharge ← pb
+  let L ← pf
+  let tiny ← pf
+  let etq ← pf
+  let etr ← pf
+  let ist ← plist proot
+  let branches ← plist proot
+  let bds ← plist pf
+  let qs ← plist pf
+  let mode ← tok
+  let dv ← pf
+  let dr : Draw Float := if mode == "r" then .unit dv else .value dv
+  if kind == 7 || kind == 8 then
+    return showRes (sendRoot Ops.float ⟨L, tiny⟩ kind useCharge ⟨etq, etr⟩ ist branches bds qs dr)
+  else return "bad-args"
+
 private def pow32 (x : Float) : Float := Float.pow x (3.0 / 2.0)
 
 def thinComp : Comp := Comp.pure fun
@@ -114,6 +136,10 @@ def thinComp : Comp := Comp.pure fun
       | _ => "bad-args"
   | "send" :: rest =>
       match psend.run rest with
+      | some (r, []) => r
+      | _ => "bad-args"
+  | "sendroot" :: rest =>
+      match psendroot.run rest with
       | some (r, []) => r
       | _ => "bad-args"
   | _ => "bad-op"
